@@ -212,6 +212,18 @@ Checks that were strengthened because a seeded change (or the triage of one) sho
   `en_c13`'s end-to-end targets are cut inside the request line with a 408 answer in between. While re-running C11 beside other
   work the check took six minutes instead of ten seconds: every observation of the folded-Content-Length known finding wrote a
   replay file (45 000 of them, deleted again at the next start) - a process now keeps at most three replay files per violation key.
+* **Round 14** (9 more, the other nine properties; 4 not caught at first): **C03-14** (the tunnel probe decides after four bytes when
+  the piece ends inside a method of more than four letters) was caught by C04 and C16 but not by C03, whose exchanges had no
+  CONNECT: a fortieth of C03's base cases are now an accepted CONNECT followed by plain HTTP requests (OPTIONS, DELETE, PROPFIND,
+  MKCALENDAR ...) refined like all others; **C05-14** (`request_progress` set to COMPLETE only after the REQUEST_COMPLETE hook, so a
+  hook that returns STOP leaves the once-guard open) shows its second REQUEST_COMPLETE only after a scripted callback failure, which
+  C05 does not judge; what is judged now is that the progress indicator agrees with the callback - a side whose COMPLETE callback
+  runs is complete; **C07-14** (request-side bomb test compares with the *response* message length) - benign bodies of every kind
+  and side now also run with bomb limits far below the payload size (1..16384): the limit concerns bodies that inflate more than
+  2048-fold and must not cost the others a byte; **C12-14** (the `HTP_DECODER_DEFAULTS` fan-out of three setters stops short of the
+  path context) - a third of `en_c12`'s lattice is configured through `HTP_DECODER_DEFAULTS`. C10-14 (Host-header string leaked when
+  the target is absolute-form and agrees with it) was reported through LeakSanitizer on C10's own workload, not by the steady-state
+  sampler, whose request shapes are all origin-form.
 * **C08-1/2, C19-1/2** were the acceptance tests of the two checks built last; C19-1 (a process-wide decompression buffer) is
   invisible to ThreadSanitizer because zlib does the writes, and is caught by the solo-vs-shared dump comparison under baton
   interleavings; C19-2 (self-organising best-fit map) is caught by the deep configuration hash and by TSan.
